@@ -213,6 +213,7 @@ func (m *mem) gc(cur, prev time.Time) error {
 		repoNames = append(repoNames, r)
 	}
 	m.mu.Unlock()
+	errs := []error{}
 	for _, r := range repoNames {
 		// if stop ch was closed, exit immediately
 		select {
@@ -235,10 +236,11 @@ func (m *mem) gc(cur, prev time.Time) error {
 		}
 		err := repo.gc()
 		if err != nil {
-			return err
+			// a repository that cannot be collected does not keep the others from being collected
+			errs = append(errs, err)
 		}
 	}
-	return nil
+	return errors.Join(errs...)
 }
 
 // IndexGet returns the current top level index for a repo.
